@@ -13,7 +13,7 @@ ROOT = os.path.dirname(os.path.dirname(os.path.abspath(__file__)))
 CAT = json.load(open(os.path.join(ROOT, "mutants", "catalog.json")))
 
 
-RESULTS = os.path.join(ROOT, "mutants", "results.json")
+RESULTS = os.environ.get("MUT_RESULTS", os.path.join(ROOT, "mutants", "results.json"))
 
 
 def record(name, prop, rc, sig, tier):
@@ -78,7 +78,12 @@ if __name__ == "__main__":
             print(k, v["prop"], v["file"], "-", v.get("note", ""))
     elif "--all" in a:
         prop = a[a.index("--prop") + 1] if "--prop" in a else None
-        for k, v in CAT.items():
+        part = a[a.index("--part") + 1].split("/") if "--part" in a else ["0", "1"]
+        names = sorted(CAT)
+        for i, k in enumerate(names):
+            v = CAT[k]
+            if i % int(part[1]) != int(part[0]):
+                continue
             ps = v["prop"] if isinstance(v["prop"], list) else [v["prop"]]
             if prop is None or prop in ps:
                 run_one(k, tier)
